@@ -14,8 +14,8 @@ CHECKS = {
          "For every enabled set, key spelling and threshold, ALL sequences of up to T+1 atoms (honest, legacy-v, high-s twin, other-message, unknown key, zero, bad v, truncated, padded) are verified by the exported "
          "verifier and by a reference reading using different recovery code; results must agree (soundness and completeness). Every configuration is also reached by transactions and exercised through receive and replace.", "5 C01", ""),
  "C02": (True, "model_checking", "explicit-state BFS to closure of the used-nonce lattice + exhaustive ordered-pair key grid",
-         "All used-nonce sets over a small (domain, nonce) universe are reached by real receives with differing bodies, attestation encodings and submitters, interleaved with pausing, "
-         "attester rotation and re-linking; a second receive for a used pair must fail; single query, paginated list and export must equal the history in every state; key injectivity over a boundary grid by behaviour.", "5 C02", ""),
+         "All used-nonce sets over a small (domain, nonce) universe are reached by real receives with differing bodies, attestation encodings, callers and submitters, interleaved with pausing, attester rotation, re-linking, messenger removal and the chain advancing a million blocks; "
+         "a second receive for a used pair must fail; single query, paginated list and export must equal the history in every state; every privileged transaction type is probed not to change the set; key injectivity over a boundary grid by behaviour; plus all 2-3 step sequences without restore.", "5 C02", ""),
  "C03": (True, "model_checking", "exhaustive product enumeration of acceptance-condition vectors over the real receive handler",
          "Every combination of acceptance-condition values (configuration built by real admin transactions x message fields) is submitted to the real "
          "handler on real bank/fiattokenfactory keepers; success must equal the conjunction computed by the reference model, rejected receives must leave all four stores byte-identical.",
@@ -45,16 +45,16 @@ CHECKS = {
          "The closed set of role states is explored with every role-update/accept transaction (valid and invalid new holders) by every submitter and compared with the "
          "two-step ownership automaton in every state; every unrelated transaction type is probed not to move any role.", "5 C11", ""),
  "C12": (True, "model_checking", "explicit-state BFS over pause actions + flow/admin probes in every state",
-         "All flag states reachable by pause/unpause by every account, from several history points; in each the 8 user flows and 18 admin transactions are probed against the flag x flow matrix.", "5 C12", ""),
+         "All flag states reachable by pause/unpause by every account (and by the passage of blocks), from several history points incl. a rotated pauser and a configured burn limit; in each the user flows and 18 admin transactions are probed against the flag x flow matrix, differentially against the same flow with nothing paused.", "5 C12", ""),
  "C13": (True, "model_checking", "explicit-state BFS to closure over the real handlers, from every valid start state",
          "Every state reachable by enable/disable/update-threshold sequences over a 3-key (quick) / 4-key (thorough) universe with extra "
          "spellings, from every start state with 1<=t<=|E|, is visited; the invariant and agreement with a reference model are checked in "
          "every state, a three-valued step oracle on every transition.", "5 C13", ""),
  "C14": (True, "fault_enumeration", "exhaustive fault-plan enumeration ({none,before,after}^calls) at every state of a bounded BFS",
-         "At every history point each money-moving transaction is run under every subset of its dependency calls failing before/after taking effect, and under every late validation failure after the burn; "
-         "a failure must surface as an error (state and events then equal the pre-state), a success must have had nil results from all dependency calls and an emitted message / marked nonce.", "5 C14", ""),
+         "At every history point each money-moving transaction is run under every plan in {none, fail-before, fail-after, panic}^calls and under every late validation failure after the burn; "
+         "a failure must surface as an error (raw stores, public state, used-nonce and next-nonce queries and events then equal the pre-state), a success must have had nil results from all dependency calls and an emitted message / marked nonce.", "5 C14", ""),
  "C15": (True, "model_checking", "exhaustive menu over every transaction type/branch from several states with a recording store service; path census over error-return sites",
-         "From six states every transaction type runs in its success path and every failure branch (79 of 85 error-return sites driven, the other 6 documented unreachable), and every query/export is called: "
+         "From six states, and from every state one (quick) / two (thorough) successful transactions away, every transaction type runs in its success path and every failure branch (79 of 85 error-return sites driven, 6 documented unreachable), and every query/export is called: "
          "raw store writes stay in the documented key classes, the typed diff is exactly the named entry, no invisible keys, failed transactions/queries/export write nothing.", "5 C15",
          "The static all-paths half of the quantifier is decided only for the driven paths (census in the evidence)."),
  "C16": (True, "model_checking", "exhaustive enumeration of byte strings and field values against an independent reference codec",
@@ -64,8 +64,9 @@ CHECKS = {
          "Every sequence (length <=3) over colliding entries in each keyed list (pairs of lists in thorough) x optional fields x roles: duplicates must be rejected, accepted states must round-trip as multisets; "
          "in every state of a BFS over all 25 transaction types, init(export(s)) into an empty chain must reproduce the raw module store key for key. One known finding (pending owner has no genesis field).", "5 C17", ""),
  "C18": (True, "exploration", "exhaustive enumeration of transaction-granular interleavings of several instances vs solo reference runs + separate free-running -race pass",
-         "All interleavings (630 quick / 16800 thorough, x separate and shared keeper) of three colliding histories and a query-only instance: every instance's root hash, responses, events and errors must equal its solo run; "
-         "repeated and after-unrelated-history replays in one process; the same bodies run free on 16 goroutines under the race detector.", "5 C18",
+         "All interleavings (630 quick / 16800 thorough, x separate and shared keeper) of three colliding histories and a query-only instance vs solo runs; repeated and after-unrelated-history replays compared with references computed in fresh processes; "
+         "discarded-transaction non-interference: for every ordered pair (s, q) of a ~135-request menu in 6 states, q after executing s on a branch that is then discarded must equal q alone and queries must be unchanged; "
+         "the same bodies run free on 16 goroutines under the race detector (one shared cctp keeper, per-instance dependencies).", "5 C18",
          "Map-iteration/time/rand nondeterminism is covered only by repeated runs (randomised differential) and an informational AST scan; races wholly inside dependencies are counted, not reported."),
  "C19": (True, "model_checking", "per-registry BFS to closure + combined BFS, every query compared with reference maps after every transition",
          "All contents of each registry over small colliding key universes are reached by real transactions; after every transition every single-item query for every key, every list query for every page size in key and offset mode with totals, and all scalar queries are compared with reference maps.", "5 C19", ""),
